@@ -1186,3 +1186,82 @@ Proof.
   intros Ht s1 s' r E.
   apply (preload_first_lemma f s1 n (mkLoader k sc) s' r); auto. simpl. apply upd_same.
 Qed.
+
+(* ------------------------------------------------------------------ *)
+(* host initialisation in any order *)
+
+Lemma register_keeps_tables s m fs s' r :
+  register s m fs = (s', r) ->
+  forall n, is_table (loaded s n) = true -> loaded s' n = loaded s n /\ globals s' n = globals s n.
+Proof.
+  unfold register. destruct (is_table (loaded s m)) eqn:Et.
+  - intros E n _. inversion E; subst. split; reflexivity.
+  - destruct (find_table_global s m) as [s1 [t|]] eqn:Ef; intros E n Hn; inversion E; subst.
+    + assert (Hne : n <> m) by (intros ->; congruence).
+      destruct (find_table_frame _ _ _ _ Ef) as (_ & HL & _).
+      split; [simpl; rewrite upd_other by assumption; now rewrite HL|].
+      revert Ef. unfold find_table_global. destruct (globals s m); intros Ef; inversion Ef; subst; try reflexivity.
+      simpl. now apply upd_other.
+    + destruct (find_table_frame _ _ _ _ Ef) as (_ & _ & _ & _ & (_ & _ & ->)). split; reflexivity.
+Qed.
+
+Lemma open_package_keeps_tables s s' r :
+  open_package s = (s', r) ->
+  forall n, is_table (loaded s n) = true -> loaded s' n = loaded s n /\ globals s' n = globals s n.
+Proof.
+  unfold open_package. destruct (register s PKG []) as [s1 r1] eqn:Er.
+  pose proof (register_keeps_tables _ _ _ _ _ Er) as H.
+  destruct r1; intros E; inversion E; subst; exact H.
+Qed.
+
+(* OpenPackage: "package" itself is reachable, nothing registered before is lost *)
+Lemma open_package_lemma s s' t :
+  open_package s = (s', Ok t) ->
+  is_table t = true /\ loaded s' PKG = t /\
+  (is_table (loaded s PKG) = false -> globals s' PKG = t) /\
+  (forall m, m <> PKG -> loaded s' m = loaded s m) /\
+  (forall fuel, require (S fuel) s' PKG = (s', Ok t)).
+Proof.
+  unfold open_package. destruct (register s PKG []) as [s1 r1] eqn:Er.
+  destruct r1 as [t1| |]; intros E; inversion E; subst.
+  destruct (host_modules_reachable_lemma _ _ _ _ _ Er) as (Ht & Hl & Hg & _ & _).
+  destruct (register_effects _ _ _ _ _ Er) as (_ & _ & Ho & _).
+  split; [exact Ht|]. split; [exact Hl|]. split; [exact Hg|]. split; [exact Ho|].
+  intros fuel. rewrite require_S. cbv zeta. simpl loaded. rewrite Hl, (table_truthy _ Ht).
+  destruct t; simpl in Ht; try discriminate. reflexivity.
+Qed.
+
+Lemma istep_keeps_tables sb o sb' ob :
+  istep sb o = (sb', ob) ->
+  forall n, is_table (loaded (fst sb) n) = true ->
+    loaded (fst sb') n = loaded (fst sb) n /\ globals (fst sb') n = globals (fst sb) n.
+Proof.
+  destruct sb as [s b]. destruct o; simpl.
+  - intros E; inversion E; subst. auto.
+  - destruct (open_package s) as [s' r] eqn:Eo. intros E; inversion E; subst. simpl.
+    eapply open_package_keeps_tables; eauto.
+  - destruct (register s n []) as [s' r] eqn:Er. intros E; inversion E; subst. simpl.
+    eapply register_keeps_tables; eauto.
+  - destruct (register s n fs) as [s' r] eqn:Er. intros E; inversion E; subst. simpl.
+    eapply register_keeps_tables; eauto.
+  - destruct b; intros E; inversion E; subst; simpl; auto.
+Qed.
+
+(* a module table in _LOADED survives every initialisation order that follows (OpenPackage
+   included), keeps its global, and require returns it *)
+Lemma host_modules_reachable_any_order_lemma : forall i sb n,
+  is_table (loaded (fst sb) n) = true ->
+  let s2 := fst (fst (irun sb i)) in
+  loaded s2 n = loaded (fst sb) n /\ globals s2 n = globals (fst sb) n /\
+  forall fuel, require (S fuel) s2 n = (s2, Ok (loaded (fst sb) n)).
+Proof.
+  induction i as [|o i IH]; intros sb n Ht.
+  - cbv zeta. simpl irun. simpl fst. split; [reflexivity|]. split; [reflexivity|].
+    intros fuel. rewrite require_S. cbv zeta. rewrite (table_truthy _ Ht).
+    destruct (loaded (fst sb) n); simpl in Ht; try discriminate. reflexivity.
+  - simpl irun. destruct (istep sb o) as [sb1 ob] eqn:Es.
+    destruct (istep_keeps_tables _ _ _ _ Es n Ht) as (Hl & Hg).
+    assert (Ht1 : is_table (loaded (fst sb1) n) = true) by now rewrite Hl.
+    specialize (IH sb1 n Ht1). destruct (irun sb1 i) as [sb2 obs]. cbv zeta in *. simpl fst in *.
+    rewrite Hl, Hg in IH. exact IH.
+Qed.
